@@ -50,6 +50,50 @@ def _classify_target(f, tgt, loops):
     return kinds
 
 
+def _no_helpers(call):
+    return False
+
+
+def _classify_target_flags(f, tgt, loops):
+    """Like _classify_target, but along paths consistent with the bool flags
+    assigned on the way (the table's answer travels in a flag to the test that
+    emits or drops the terminator)."""
+    headers = set(loops.keys())
+    # only the loops that can return a token count as "back to scanning"
+    flags = mir.flag_locals(f)
+    rets = f.return_locals()
+    seen = set()
+    st = [(tgt, frozenset())]
+    kinds = set()
+    budget = 20000
+    while st and budget > 0:
+        budget -= 1
+        bb, envk = st.pop()
+        if (bb, envk) in seen:
+            continue
+        seen.add((bb, envk))
+        if bb in headers:
+            kinds.add("suppress")
+            continue
+        assigns_ret = False
+        for s in f.stmts(bb):
+            if s[0] == "=" and s[1][0] == 0:
+                assigns_ret = True
+        t = f.term(bb)
+        if t["k"] == "call" and t["dst"][0] == 0:
+            assigns_ret = True
+        if assigns_ret or t["k"] == "return":
+            kinds.add("emit")
+            continue
+        env = mir.flag_transfer(f, flags, bb, dict(envk))
+        k2 = frozenset(env.items())
+        for s2 in mir.flag_edges(f, flags, bb, env):
+            st.append((s2, k2))
+    if budget <= 0:
+        kinds |= {"emit", "suppress"}
+    return kinds
+
+
 def rule_R09_1(ctx):
     prog = ctx.prog
     g = ctx.grammar
@@ -81,6 +125,24 @@ def rule_R09_1(ctx):
     best = big_switch(f)
     helper = None
     none_answer = None
+    flagged = False
+    if best is None:
+        # the table may sit in a small bool helper consulted through a flag
+        # (`let keep = *t != StmtEnd || stmt_can_end_after(last); if keep {..}`):
+        # read `next` with such leaves (then with its private helpers) inlined
+        # and follow the flag from the table to the emit/suppress decision
+        import inline
+        for kw in ({"pick": _no_helpers, "leaves": True}, {"leaves": True},
+                   {"leaves": True, "closures": True, "combinators": True}):
+            fv = inline.view(prog, f, **kw)
+            if fv is not f and big_switch(fv) is not None:
+                f = fv
+                best = big_switch(fv)
+                loops = f.natural_loops()
+                flagged = True
+                r.inst("continuation table read in the inlined view of Lexer::next (%s)"
+                       % sorted(m for m in fv.members if m != fv.path))
+                break
     if best is None:
         def ret_consts(hf_, tgt):
             outs = set()
@@ -207,9 +269,10 @@ def rule_R09_1(ctx):
     else:
         bb, info = best
         table = {}
+        cls = _classify_target_flags if flagged else _classify_target
         for v, tgt in info["cases"]:
-            table[v] = _classify_target(f, tgt, loops)
-        other = _classify_target(f, info["otherwise"], loops)
+            table[v] = cls(f, tgt, loops)
+        other = cls(f, info["otherwise"], loops)
         for v in variants:
             if v not in table:
                 table[v] = other
@@ -251,7 +314,8 @@ def rule_R09_1(ctx):
         if f.is_cleanup(b2) or f.term(b2)["k"] != "switch":
             continue
         i2 = f.switch_info(b2)
-        if i2 and i2["kind"] == "discr" and i2["enum"] == "std::option::Option<lexer::Token>" \
+        if i2 and i2["kind"] == "discr" and i2["enum"] in ("std::option::Option<lexer::Token>",
+                                                           "std::option::Option<&lexer::Token>") \
                 and f.dominates(b2, bb):
             opt_sw = i2
     if opt_sw is None and none_answer is not None and helper is not None:
@@ -271,7 +335,7 @@ def rule_R09_1(ctx):
         for n, tgt in opt_sw["cases"]:
             if n == "None":
                 none_t = tgt
-        k = _classify_target(f, none_t, loops)
+        k = (_classify_target_flags if flagged else _classify_target)(f, none_t, loops)
         r.inst("no previous token -> %s" % sorted(k))
         if k == {"suppress"}:
             r.ok()
